@@ -17,7 +17,7 @@ use incremental_font_transfer::font_patch::{IncrementalFontPatchBase, PatchingEr
 use incremental_font_transfer::patch_group::{PatchGroup, PatchInfo, UriStatus};
 use incremental_font_transfer::patchmap::{intersecting_patches, PatchFormat, SubsetDefinition};
 use read_fonts::collections::IntSet;
-use read_fonts::{FontRef, ReadError};
+use read_fonts::{FontRef, ReadError, TableProvider};
 use shared_brotli_patch_decoder::decode_error::DecodeError;
 use shared_brotli_patch_decoder::SharedBrotliDecoder;
 use std::cell::RefCell;
@@ -1461,7 +1461,14 @@ fn apply_seq(s: &mut Session, font: &[u8], groups: &[&[(&Info, &GkPatch)]], inpu
             if !matches!(r, Ok(Ok(_))) { return Err(None); }
         }
         match r {
-            Ok(Ok(b)) => cur = b,
+            Ok(Ok(b)) => {
+                // hypothesis `hift` of the grouping theorems, checked on the real reader: the applied
+                // bits never disturb the charstrings offsets recorded in `IFT `
+                let offs = |f: &[u8]| FontRef::new(f).ok().and_then(|f| f.ift().ok()).map(|t| (t.cff_charstrings_offset(), t.cff2_charstrings_offset()));
+                let (before, after) = (offs(&cur), offs(&b));
+                s.oracle("gk:charstrings-offsets-in-IFT-untouched-by-applied-bits", before == after, input, || format!("{before:?} -> {after:?}"));
+                cur = b
+            }
             Ok(Err(e)) => return Err(Some(format!("err {}", perr(&e)))),
             Err(p) => return Err(Some(format!("panic {p}"))),
         }
